@@ -48,7 +48,9 @@ theorem readScn_good (c : Cfg) (h : c.instancesShareNothing = true) (g : Proc) (
 theorem writeScn_nil (c : Cfg) (g : Proc) (m : Store) : writeScn c g m [] = (g, m) := by
   simp only [writeScn]; split
   · rfl
-  · split <;> rfl
+  · split
+    · rfl
+    · split <;> rfl
 
 theorem objBegin_good (c : Cfg) (h : c.instancesShareNothing = true) (g g' : Proc) (o : Obj) (st : Store) :
     objBegin c g o st = (g, (objBegin c g' o st).2) := by
@@ -96,7 +98,10 @@ theorem stepInst_good (c : Cfg) (h : c.instancesShareNothing = true) (ad : Bool)
   have hr := revive_good c h ad g g' src x
   cases r <;> simp only [stepInst] <;> (try rfl)
   all_goals rw [hr]
-  all_goals dsimp only
+  all_goals simp only [h, Bool.not_true, Bool.false_and, Bool.false_eq_true, if_false]
+  · split
+    · rw [objBegin_good c h g g', objBegin_good c h (revive c ad g' src x).1 g']
+    · rfl
   · split
     · rw [objBegin_good c h g g', objBegin_good c h (revive c ad g' src x).1 g']
     · rfl
@@ -115,7 +120,7 @@ theorem stepInst_indep (c : Cfg) (h : c.instancesShareNothing = true) (ad : Bool
 
 theorem stepInst_keeps_g (c : Cfg) (h : c.instancesShareNothing = true) (ad : Bool) (g : Proc) (src : Obj) (x : Inst)
     (r : Req) : (stepInst c ad g src x r).1 = g := by
-  rw [stepInst_good c h ad g ⟨[], []⟩]
+  rw [stepInst_good c h ad g ⟨[], [], []⟩]
 
 theorem stepOwn_good (c : Cfg) (h : c.instancesShareNothing = true) (g g' : Proc) (o : Obj) (r : Req) :
     stepOwn c g o r = (g, (stepOwn c g' o r).2) := by
@@ -127,11 +132,11 @@ theorem stepOwn_indep (c : Cfg) (h : c.instancesShareNothing = true) (g g' : Pro
 
 theorem stepOwn_keeps_g (c : Cfg) (h : c.instancesShareNothing = true) (g : Proc) (o : Obj) (r : Req) :
     (stepOwn c g o r).1 = g := by
-  rw [stepOwn_good c h g ⟨[], []⟩]
+  rw [stepOwn_good c h g ⟨[], [], []⟩]
 
 /-- without an adapter, a request that carries no setting never writes the process-wide cell. -/
-theorem stepInst_g (c : Cfg) (g : Proc) (src : Obj) (x : Inst) (r : Req) (h : r.noSetting = true) :
-    (stepInst c false g src x r).1 = g := by
+theorem stepInst_g (c : Cfg) (hH : c.sharedIsHandlerDefaults = false) (g : Proc) (src : Obj) (x : Inst) (r : Req)
+    (h : r.noSetting = true) : (stepInst c false g src x r).1 = g := by
   cases r with
   | runStep st =>
     simp only [Req.noSetting, List.isEmpty_iff] at h; subst h
@@ -143,7 +148,12 @@ theorem stepInst_g (c : Cfg) (g : Proc) (src : Obj) (x : Inst) (r : Req) (h : r.
     · rfl
   | beginSession st =>
     simp only [Req.noSetting, List.isEmpty_iff] at h; subst h
-    simp only [stepInst, revive_noAd]
+    simp only [stepInst, revive_noAd, hH, Bool.and_false, Bool.false_eq_true, if_false]
+    split
+    · simp [objBegin, writeScn_nil]
+    · rfl
+  | beginOmit =>
+    simp only [stepInst, revive_noAd, hH, Bool.and_false, Bool.false_eq_true, if_false]
     split
     · simp [objBegin, writeScn_nil]
     · rfl
@@ -298,7 +308,8 @@ theorem step_local (c : Cfg) (s s' : Server) (op : Nat × Req)
       · rw [hg]; exact ⟨rfl, by simp [comp, updFn], Or.inr rfl⟩
 
 /-- without an adapter, a request without a setting never writes the shared cell -/
-theorem step_g (c : Cfg) (s : Server) (op : Nat × Req) (had : s.ad = false) (h : op.2.noSetting = true) :
+theorem step_g (c : Cfg) (hH : c.sharedIsHandlerDefaults = false) (s : Server) (op : Nat × Req) (had : s.ad = false)
+    (h : op.2.noSetting = true) :
     (step c s op).1.g = s.g := by
   unfold step
   simp only [preRestore_id c s op (Or.inr had)]
@@ -307,7 +318,7 @@ theorem step_g (c : Cfg) (s : Server) (op : Nat × Req) (had : s.ad = false) (h 
   · simp only [hs]
     cases hx : s.insts op.1 with
     | none => simp only [Bool.false_eq_true, if_false]; exact (stepNone_frame c s op.1 op.2).1
-    | some x => simp only [Bool.false_eq_true, if_false, had]; exact stepInst_g c s.g _ x op.2 h
+    | some x => simp only [Bool.false_eq_true, if_false, had]; exact stepInst_g c hH s.g _ x op.2 h
 
 /-- with nothing shared no request writes the shared cell -/
 theorem step_keeps_g (c : Cfg) (h : c.instancesShareNothing = true) (s : Server) (op : Nat × Req)
@@ -323,7 +334,9 @@ theorem step_keeps_g (c : Cfg) (h : c.instancesShareNothing = true) (s : Server)
 
 /-- the generalised commutation lemma: two servers that agree on owner `t`'s part (and, when something is
 shared, on the shared cell) answer `t`'s requests alike, whatever is addressed to the others in between. -/
-theorem proj_resps (c : Cfg) (hF : c.freshObjects = true) (t : Option Nat) (ops : List (Nat × Req))
+theorem proj_resps (c : Cfg) (hF : c.freshObjects = true)
+    (hH : c.sharedIsHandlerDefaults = false ∨ (c.instancesShareNothing = true ∧ c.restoreOnlyAddressed = true))
+    (t : Option Nat) (ops : List (Nat × Req))
     (hops : (c.instancesShareNothing = true ∧ c.restoreOnlyAddressed = true) ∨
       ∀ op ∈ ops, owner op ≠ t → op.2.noSetting = true) :
     ∀ (s s' : Server), comp t s = comp t s' → s.ad = s'.ad → s.fac = s'.fac →
@@ -381,13 +394,15 @@ theorem proj_resps (c : Cfg) (hF : c.freshObjects = true) (t : Option Nat) (ops 
         · exact Or.inl hg
         · rcases hops with h | h
           · exact Or.inl h
-          · refine Or.inr ⟨?_, by rw [ho.2]; exact hg.2⟩
-            rw [step_g c s op hg.2 (h op List.mem_cons_self hop)]; exact hg.1
+          · rcases hH with hH | hH
+            · refine Or.inr ⟨?_, by rw [ho.2]; exact hg.2⟩
+              rw [step_g c hH s op hg.2 (h op List.mem_cons_self hop)]; exact hg.1
+            · exact Or.inl hH
 
 theorem C16_full_of_good (c : Cfg) (h : c.instancesShareNothing = true) (hr : c.restoreOnlyAddressed = true)
     (hF : c.freshObjects = true) : C16_full c := by
   intro fac k ad ops t
-  exact proj_resps c hF t ops (Or.inl ⟨h, hr⟩) _ _ rfl rfl rfl (Or.inl ⟨h, hr⟩)
+  exact proj_resps c hF (Or.inr ⟨h, hr⟩) t ops (Or.inl ⟨h, hr⟩) _ _ rfl rfl rfl (Or.inl ⟨h, hr⟩)
 
 /-- The responses carry what the numbers are a function of (time index, effective settings of every step of the
 live simulation; logged rows; the settings a run reads), so for ANY numeric simulator `Sim` the actual response
@@ -424,7 +439,7 @@ theorem C16_lifecycle (c : Cfg) (h : c.instancesShareNothing = true) (hr : c.res
     respsOf (some i) (resps c (final c (Server.initF fac k ad) pre) ops) =
     respsOf (some i) (resps c (Server.initF fac 0 ad) (proj (some i) ops)) := by
   have hf := final_other c hr (some i) pre hpre (Server.initF fac k ad)
-  apply proj_resps c hF (some i) ops (Or.inl ⟨h, hr⟩) _ _ _ _ _ (Or.inl ⟨h, hr⟩)
+  apply proj_resps c hF (Or.inr ⟨h, hr⟩) (some i) ops (Or.inl ⟨h, hr⟩) _ _ _ _ _ (Or.inl ⟨h, hr⟩)
   · rw [hf.1]
     have : ¬ i < k := by omega
     simp [comp, Server.initF, this]
@@ -434,16 +449,16 @@ theorem C16_lifecycle (c : Cfg) (h : c.instancesShareNothing = true) (hr : c.res
 /-- Whatever the factory shares (no adapter configured, objects fresh): an owner is unaffected by everything
 addressed to the others that carries no setting — instances created, sessions begun and ended, steps without
 settings, results, keep-alive, `/equations`, `/agents`, `/run` without settings, **stop and timeout**. -/
-theorem C16_partial (c : Cfg) (hF : c.freshObjects = true) (k : Nat) (ops : List (Nat × Req)) (t : Option Nat)
+theorem C16_partial (c : Cfg) (hF : c.freshObjects = true) (hH : c.sharedIsHandlerDefaults = false) (k : Nat) (ops : List (Nat × Req)) (t : Option Nat)
     (h : ∀ op ∈ ops, owner op ≠ t → op.2.noSetting = true) :
     respsOf t (resps c (Server.init k) ops) = respsOf t (resps c (Server.init k) (proj t ops)) :=
-  proj_resps c hF t ops (Or.inr h) _ _ rfl rfl rfl (Or.inr ⟨rfl, rfl⟩)
+  proj_resps c hF (Or.inl hH) t ops (Or.inr h) _ _ rfl rfl rfl (Or.inr ⟨rfl, rfl⟩)
 
 /-- stop, timeout and creation are local (instance of `C16_partial`, stated on its own as in the property). -/
-theorem C16_stop_timeout_local (c : Cfg) (hF : c.freshObjects = true) (k : Nat) (ops : List (Nat × Req)) (t : Option Nat)
+theorem C16_stop_timeout_local (c : Cfg) (hF : c.freshObjects = true) (hH : c.sharedIsHandlerDefaults = false) (k : Nat) (ops : List (Nat × Req)) (t : Option Nat)
     (h : ∀ op ∈ ops, owner op ≠ t → (op.2 = .stop ∨ op.2 = .expire ∨ op.2 = .create)) :
     respsOf t (resps c (Server.init k) ops) = respsOf t (resps c (Server.init k) (proj t ops)) := by
-  apply C16_partial c hF
+  apply C16_partial c hF hH
   intro op ho hne
   rcases h op ho hne with h | h | h <;> simp [h, Req.noSetting]
 
@@ -483,21 +498,23 @@ def noSt : Store := []
 
 /-- Negation witness for a factory whose products share a cell (the base model's points table): a points
 setting applied through instance 0 changes the step instance 1 returns. -/
-theorem C16_witness_shared (c : Cfg) (h : c.instancesShareNothing = false) (hk : c.sharedIsScenarioDicts = false) :
+theorem C16_witness_shared (c : Cfg) (h : c.instancesShareNothing = false) (hk : c.sharedIsScenarioDicts = false)
+    (hh : c.sharedIsHandlerDefaults = false) :
     ¬ C16_full c := by
   intro hf
   have := hf Obj.fresh 2 false [(0, .beginSession noSt), (1, .beginSession noSt), (0, .runStep [(2, 5)]), (1, .runStep noSt),
     (1, .runStep noSt)] (some 1)
-  obtain ⟨a, b, d, e⟩ := c; simp only at h hk; subst h hk
+  obtain ⟨a, b, d, e, f⟩ := c; simp only at h hk hh; subst h hk hh
   revert this; cases b <;> cases d <;> decide
 
 /-- same mechanism through the begin-session settings, an instance created during the history, and the
 server-level `/run`: its points settings reach the instance. -/
-theorem C16_witness_shared_run (c : Cfg) (h : c.instancesShareNothing = false) (hk : c.sharedIsScenarioDicts = false) :
+theorem C16_witness_shared_run (c : Cfg) (h : c.instancesShareNothing = false) (hk : c.sharedIsScenarioDicts = false)
+    (hh : c.sharedIsHandlerDefaults = false) :
     ¬ C16_full c := by
   intro hf
   have := hf Obj.fresh 0 true [(3, .create), (3, .beginSession [(2, 2)]), (0, .run [(2, 7)]), (3, .runStep noSt)] (some 3)
-  obtain ⟨a, b, d, e⟩ := c; simp only at h hk; subst h hk
+  obtain ⟨a, b, d, e, f⟩ := c; simp only at h hk hh; subst h hk hh
   revert this; cases b <;> cases d <;> decide
 
 /-- Negation witness for the OTHER thing factory products can share — state that survives across factory calls
@@ -510,15 +527,25 @@ theorem C16_witness_shared_cache (c : Cfg) (h : c.instancesShareNothing = false)
     ¬ C16_full c := by
   intro hf
   have := hf Obj.fresh 2 false [(1, .beginSession noSt), (0, .beginSession [(0, 5)]), (1, .runStep noSt), (0, .run noSt)] (some 1)
-  obtain ⟨a, b, d, e⟩ := c; simp only at h hk; subst h hk
-  revert this; cases b <;> cases d <;> decide
+  obtain ⟨a, b, d, e, f⟩ := c; simp only at h hk; subst h hk
+  revert this; cases b <;> cases d <;> cases f <;> decide
 
 theorem C16_witness_shared_cache_run (c : Cfg) (h : c.instancesShareNothing = false) (hk : c.sharedIsScenarioDicts = true) :
     ¬ C16_full c := by
   intro hf
   have := hf Obj.fresh 1 false [(0, .beginSession [(1, 7)]), (0, .run noSt)] none
-  obtain ⟨a, b, d, e⟩ := c; simp only at h hk; subst h hk
-  revert this; cases b <;> cases d <;> decide
+  obtain ⟨a, b, d, e, f⟩ := c; simp only at h hk; subst h hk
+  revert this; cases b <;> cases d <;> cases f <;> decide
+
+/-- Negation witness for HANDLER-level state (`sharedIsHandlerDefaults`): a class attribute of the server keeps the
+optional parts of the last begin-session request.  Instance 0 begins a session with settings `k2 = 7`; instance 1
+then begins a session whose body has NO `settings` key and gets `k2 = 7`; alone it gets the empty default. -/
+theorem C16_witness_handler_defaults (c : Cfg) (h : c.instancesShareNothing = false)
+    (hk : c.sharedIsHandlerDefaults = true) : ¬ C16_full c := by
+  intro hf
+  have := hf Obj.fresh 2 false [(0, .beginSession [(1, 7)]), (1, .beginOmit), (1, .runStep noSt)] (some 1)
+  obtain ⟨a, b, d, e, f⟩ := c; simp only at h hk; subst h hk
+  revert this; cases b <;> cases d <;> cases e <;> decide
 
 /-- an instance with an externalised session (one step), then — not externalised — the session ended and a new one
 begun with another setting; instance 0 is stopped and a late keep-alive for it arrives; instance 1 steps. -/
@@ -536,14 +563,14 @@ next step continues the OLD session (time 1, constant 1 instead of time 0, const
 theorem C16_witness_restore_all (c : Cfg) (h : c.restoreOnlyAddressed = false) : ¬ C16_full c := by
   intro hf
   have := hf Obj.fresh 2 true restoreOps (some 1)
-  obtain ⟨a, b, d, e⟩ := c; simp only at h; subst h
-  revert this; cases a <;> cases d <;> cases e <;> decide
+  obtain ⟨a, b, d, e, f⟩ := c; simp only at h; subst h
+  revert this; cases a <;> cases d <;> cases e <;> cases f <;> decide
 
 theorem C16_witness_restore_all_ghost (c : Cfg) (h : c.restoreOnlyAddressed = false) : ¬ C16_full c := by
   intro hf
   have := hf Obj.fresh 2 true restoreOpsGhost (some 1)
-  obtain ⟨a, b, d, e⟩ := c; simp only at h; subst h
-  revert this; cases a <;> cases d <;> cases e <;> decide
+  obtain ⟨a, b, d, e, f⟩ := c; simp only at h; subst h
+  revert this; cases a <;> cases d <;> cases e <;> cases f <;> decide
 
 /-- "A request to an absent id touches no other instance", stated on its own: with the good mechanism (or without
 adapter) a request addressed to an id that is not in memory — never existed, stopped, timed out — leaves every other
@@ -557,7 +584,7 @@ theorem C16_absent_touches_others (c : Cfg) (h : c.restoreOnlyAddressed = false)
     ∃ (s : Server) (op : Nat × Req) (t : Option Nat), absent s.insts op.1 = true ∧ owner op ≠ t ∧
       comp t (step c s op).1 ≠ comp t s := by
   refine ⟨final c (Server.initAd 2 true) (restoreOps.take 5), (0, .keepAlive), some 1, ?_, ?_, ?_⟩
-  all_goals (obtain ⟨a, b, d, e⟩ := c; simp only at h; subst h; cases a <;> cases d <;> cases e <;> decide)
+  all_goals (obtain ⟨a, b, d, e, f⟩ := c; simp only at h; subst h; cases a <;> cases d <;> cases e <;> cases f <;> decide)
 
 /-- instance 0 gets a session-level setting for `k2` (key 1: an element its scenario does not list) and a
 step-level one for `tbl2` (key 3), and is stopped; then instance 1 is started, begins a session and steps. -/
@@ -571,8 +598,8 @@ new instance's first step is computed under them. -/
 theorem C16_witness_recycled (c : Cfg) (h : c.freshObjects = false) : ¬ C16_full c := by
   intro hf
   have := hf Obj.fresh 1 false recycleOps (some 1)
-  obtain ⟨a, b, d, e⟩ := c; simp only at h; subst h
-  revert this; cases a <;> cases b <;> cases e <;> decide
+  obtain ⟨a, b, d, e, f⟩ := c; simp only at h; subst h
+  revert this; cases a <;> cases b <;> cases e <;> cases f <;> decide
 
 /-- … and the same object reaches an instance RESTORED from the adapter after a timeout (`_make_bptk` again). -/
 theorem C16_witness_recycled_restore (c : Cfg) (h : c.freshObjects = false) (hr : c.restoreOnlyAddressed = true) :
@@ -580,15 +607,15 @@ theorem C16_witness_recycled_restore (c : Cfg) (h : c.freshObjects = false) (hr 
   intro hf
   have := hf Obj.fresh 2 true [(1, .beginSession noSt), (1, .runStep noSt), (1, .expire), (0, .beginSession [(1, 7)]), (0, .runStep noSt),
     (0, .stop), (1, .runStep noSt)] (some 1)
-  obtain ⟨a, b, d, e⟩ := c; simp only at h hr; subst h hr
-  revert this; cases a <;> cases e <;> decide
+  obtain ⟨a, b, d, e, f⟩ := c; simp only at h hr; subst h hr
+  revert this; cases a <;> cases e <;> cases f <;> decide
 
 /-- Non-vacuity: three instances plus one created during the history, an adapter, interleaved sessions with
 different settings (begin-session and run-step, constants and points, listed and unlisted elements), `/run` with a
 setting in between, a stop followed by a start, a timeout followed by the lazy restoration of the timed-out
 instance — instance 1's responses with their values. -/
 example :
-    respsOf (some 1) (resps ⟨true, true, true, false⟩ (Server.initAd 3 true)
+    respsOf (some 1) (resps ⟨true, true, true, false, false⟩ (Server.initAd 3 true)
       [(0, .beginSession noSt), (1, .beginSession [(1, 4)]), (0, .runStep [(0, 7)]), (1, .runStep [(2, 2)]), (2, .beginSession noSt),
        (2, .stop), (5, .create), (0, .run [(3, 9)]), (0, .runStep noSt), (1, .runStep noSt), (1, .expire), (5, .beginSession [(2, 3)]),
        (1, .results), (0, .keepAlive), (1, .runStep [(0, 6)]), (1, .endSession), (0, .equations)])
@@ -605,7 +632,7 @@ example :
 server-level object and an instance started during the history, with the values they return. -/
 example :
     let fac : Obj := { scn := [(0, 1), (1, 2), (2, 1)], mod := [], sess := none }
-    respsOf (some 4) (resps ⟨true, true, true, false⟩ (Server.initF fac 1 false)
+    respsOf (some 4) (resps ⟨true, true, true, false, false⟩ (Server.initF fac 1 false)
       [(0, .beginSession [(1, 7)]), (0, .run [(3, 2)]), (4, .create), (0, .runStep noSt), (4, .beginSession [(2, 6)]), (4, .runStep [(1, 3)])])
     = [some .created, some .started, some (.stepped 0 [[(0, 1), (1, 3), (2, 6)]])] := by
   decide
@@ -621,6 +648,7 @@ example :
 #print axioms C16_witness_shared_run
 #print axioms C16_witness_shared_cache
 #print axioms C16_witness_shared_cache_run
+#print axioms C16_witness_handler_defaults
 #print axioms C16_witness_restore_all
 #print axioms C16_witness_restore_all_ghost
 #print axioms C16_absent_touches_nobody
